@@ -10,6 +10,7 @@ import time
 
 pid, k = sys.argv[1].upper(), sys.argv[2]
 src = sys.argv[3] if len(sys.argv) > 3 else '/tmp/seed_out/%s' % pid.lower()
+sk = sys.argv[4] if len(sys.argv) > 4 else k   # index of the change inside the source directory
 dst = '/verif/seeded/%s-%s' % (pid, k)
 wt = '/tmp/ks_%d' % os.getpid()
 env = dict(os.environ, PYTHONHASHSEED='0', JAX_PLATFORMS='cpu')
@@ -23,27 +24,27 @@ ran = []
 sh('git -C /repo worktree add -q %s HEAD' % wt)
 try:
     e = dict(env, REPO_UNDER_TEST=wt, PYTHONPATH=wt)
-    r0 = sh('/venv/bin/python %s/demo%s.py' % (src, k), env=e)
+    r0 = sh('/venv/bin/python %s/demo%s.py' % (src, sk), env=e)
     ran.append('demo on HEAD worktree: exit %d' % r0.returncode)
-    a = sh('git -C %s apply %s/change%s.diff' % (wt, src, k))
+    a = sh('git -C %s apply %s/change%s.diff' % (wt, src, sk))
     ran.append('git apply: exit %d %s' % (a.returncode, a.stdout.strip()[:200]))
-    r1 = sh('/venv/bin/python %s/demo%s.py' % (src, k), env=e)
+    r1 = sh('/venv/bin/python %s/demo%s.py' % (src, sk), env=e)
     ran.append('demo with patch: exit %d; last lines: %s' % (r1.returncode, ' | '.join(r1.stdout.strip().splitlines()[-3:])[:500]))
 finally:
     sh('git -C /repo worktree remove --force %s' % wt)
 confirmed = (r0.returncode == 0 and a.returncode == 0 and r1.returncode != 0)
 t0 = time.time()
-c = sh('TAIL=14 /verif/tools/seedtest.sh %s %s/change%s.diff' % (pid, src, k))
+c = sh('TAIL=14 /verif/tools/seedtest.sh %s %s/change%s.diff' % (pid, src, sk))
 lines = [l for l in c.stdout.splitlines() if l.strip()]
 viol = [l for l in lines if l.startswith('VIOLATION')]
 detected = bool(viol) and 'EXIT=1' in c.stdout
 ran.append('tools/seedtest.sh %s change%s.diff (quick tier, private copies): %s in %.0fs' % (pid, k, 'VIOLATION' if detected else 'NOT DETECTED', time.time() - t0))
 os.makedirs(dst, exist_ok=True)
-shutil.copy('%s/change%s.diff' % (src, k), dst + '/patch.diff')
-shutil.copy('%s/demo%s.py' % (src, k), dst + '/demo.py')
+shutil.copy('%s/change%s.diff' % (src, sk), dst + '/patch.diff')
+shutil.copy('%s/demo%s.py' % (src, sk), dst + '/demo.py')
 meta = {}
 try:
-    meta = json.load(open('%s/meta%s.json' % (src, k)))
+    meta = json.load(open('%s/meta%s.json' % (src, sk)))
 except Exception as ex:
     meta = {'note': 'seed agent meta unreadable: %r' % ex}
 prev = {}
